@@ -9,6 +9,7 @@ import GraphiqModel.Proofs.InnerProductExec
 import GraphiqModel.Proofs.InnerProductFull
 import GraphiqModel.Proofs.InnerProductHilbert
 import GraphiqModel.Proofs.InvHilbert
+import GraphiqModel.Proofs.InvValid
 namespace Graphiq.C05
 open Graphiq Graphiq.PRow Graphiq.STab Graphiq.Tab
 
@@ -311,6 +312,24 @@ theorem fidelity_is_squared_inner_product (a b : Tab) (r : Option Nat) (ga : (ST
   refine ⟨_, _, a2, b2, a1, b1, ?_⟩
   exact (Hilbert.trace_rank_one _ _ _ _ a1 b1).symm.trans (Hilbert.innerProduct_trace a b r ga gb h)
 
+/-- **On valid Clifford tableaux — what the stabilizer backend holds — nothing is assumed** (every n): for two valid
+    tableaux of the same size `inner_product` returns; the fidelity of a tableau with itself is 1; and the reported value
+    is `|⟨ψ_a|ψ_b⟩|²` for unit vectors with `ρ_a = |ψ_a⟩⟨ψ_a|`, `ρ_b = |ψ_b⟩⟨ψ_b|`. -/
+theorem fidelity_on_valid_tableaux (a b : Tab) (va : a.Valid) (vb : b.Valid) (hn : a.n = b.n) :
+    STab.innerProduct a a = .ok (some 0) ∧
+    ∃ r, STab.innerProduct a b = .ok r ∧
+      ∃ ψa ψb : Hilbert.Bits a.n → ℂ,
+        (∑ x, star (ψa x) * ψa x = 1) ∧ (∑ x, star (ψb x) * ψb x = 1) ∧
+        (∀ x y, Hilbert.rho a.n (STab.ofTab a) x y = ψa x * star (ψa y)) ∧
+        (∀ x y, Hilbert.rho a.n (STab.ofTab b) x y = ψb x * star (ψb y)) ∧
+        (∑ x, star (ψa x) * ψb x) * star (∑ x, star (ψa x) * ψb x) = Hilbert.ipVal r := by
+  have ga := ofTab_good_of_valid a va
+  have gb := ofTab_good_of_valid b vb
+  have ia := ofTab_indep a va
+  have ib := ofTab_indep b vb
+  obtain ⟨r, hr⟩ := inner_product_returns a b ga gb ia ib hn
+  exact ⟨fidelity_self_returns a ga ia, r, hr, fidelity_is_squared_inner_product a b r ga gb ib hr⟩
+
 /-- **The executable specification is exact** (every n): the brute-force test `STab.orthB` (driver command `stab.overlap`,
     which the correspondence harness compares with the *real* `fidelity` on every pair with n ≤ 3) decides `Orth`, and the
     membership test behind its count `STab.commonCount` decides "this subset product of `a`'s rows lies in the group of
@@ -473,6 +492,10 @@ example : bellPlusTab.Valid ∧ ket00Tab.Valid ∧
     have e : Hilbert.ipVal (some 1) = 1 / 2 := by simp [Hilbert.ipVal]
     rw [e] at h; exact h
   · exact (fidelity_is_state_overlap_of_valid bellPlusTab bellMinusTab none v1 v3 (ok_of_check _ _ (by decide +kernel))).1
+
+/-- the hypotheses of `fidelity_on_valid_tableaux` are met by Φ⁺ and |00⟩ -/
+example : bellPlusTab.Valid ∧ ket00Tab.Valid ∧ bellPlusTab.n = ket00Tab.n :=
+  ⟨(Tab.isSymplectic_iff _).1 (by decide), (Tab.isSymplectic_iff _).1 (by decide), rfl⟩
 
 /-- `overlap_spec_checker_exact` here evaluates to: orthogonal, two common elements with |00⟩ -/
 example : (STab.ofTab bellPlusTab).orthB (STab.ofTab bellMinusTab) = true ∧
